@@ -51,6 +51,30 @@ Proof. intros Hf. unfold isact. apply memb_In. rewrite frag1_act. apply in_seq. 
 Lemma frag1_isact_lt f : isact fb f = true -> f < length (fl_design fb).
 Proof. unfold isact. intros H. apply memb_In in H. rewrite frag1_act in H. apply in_seq in H. lia. Qed.
 
+Lemma frag1_no_derived : has_derived fb = false.
+Proof.
+  destruct frag1_parts as (_ & _ & _ & _ & H5 & _). unfold has_derived. apply not_true_is_false. intros H.
+  apply existsb_exists in H. destruct H as [f [_ Hd]]. unfold is_derived in Hd.
+  destruct (factor_at fb f) as [fd|] eqn:E; [|discriminate]. unfold all_basic in H5. rewrite forallb_forall in H5.
+  specialize (H5 fd (nth_error_In _ _ E)). destruct (ff_window fd); congruence.
+Qed.
+
+Lemma frag1_not_derived f : is_derived fb f = false.
+Proof.
+  destruct frag1_parts as (_ & _ & _ & _ & H5 & _). unfold is_derived.
+  destruct (factor_at fb f) as [fd|] eqn:E; [|reflexivity]. unfold all_basic in H5. rewrite forallb_forall in H5.
+  specialize (H5 fd (nth_error_In _ _ E)). destruct (ff_window fd); congruence.
+Qed.
+
+(** without derived factors every combination is consistent *)
+Lemma frag1_allowed_combos c : allowed_combos2 fb c = allowed_combos fb c.
+Proof.
+  unfold allowed_combos2, allowed_combos. apply filter_ext. intros ls. f_equal.
+  unfold is_excluded_or_inconsistent_combination. destruct (is_excluded_combination fb (combine c ls)); [reflexivity|].
+  apply not_true_is_false. intros H. apply existsb_exists in H. destruct H as [p [_ H]].
+  rewrite frag1_not_derived in H. discriminate.
+Qed.
+
 (** F1 is the part of F2 without weights, with one crossing and without implied factors *)
 Theorem frag1_frag2 : frag2 fb = true.
 Proof.
@@ -70,14 +94,14 @@ Proof.
   { unfold factors_ok. apply forallb_forall. intros [f fd] Hin. cbn [fst snd].
     assert (Hf : f < length (fl_design fb)).
     { apply in_combine_l in Hin. apply in_seq in Hin. lia. }
-    rewrite (frag1_isact f Hf). unfold all_basic in H5. rewrite forallb_forall in H5. unfold basic_fd.
+    rewrite (frag1_isact f Hf). unfold all_basic in H5. rewrite forallb_forall in H5. apply orb_true_iff. left. unfold basic_fd.
     apply H5. eapply in_combine_r. exact Hin. }
   assert (HL : act_levels_nonempty fb = true).
   { unfold act_levels_nonempty. rewrite frag1_act. exact H9. }
   unfold single_plain_crossing in H1. unfold size_matches1 in H8. unfold plain_geometry in H7.
   unfold unit_weights in H6. apply andb_prop in H6. destruct H6 as [H6 _].
   pose proof frag1_combo_weight as Hcw.
-  unfold frag2. rewrite HB, H3, HD, HE, HL. rewrite !andb_true_r.
+  unfold frag2. rewrite HB, H3, HD, HE, HL, frag1_no_derived. cbn [negb orb]. rewrite !andb_true_r.
   destruct (fl_crossings fb) as [|c [|? ?]] eqn:Ec; try discriminate.
   destruct (fl_sustains fb) as [|[|[|?]] [|? ?]] eqn:Es; try discriminate.
   destruct (fl_weights fb) as [|[|[|?]] [|? ?]] eqn:Ew; try discriminate.
@@ -91,7 +115,7 @@ Proof.
       by (symmetry; apply forallb_forall; intros f Hf; apply frag1_isact; rewrite forallb_forall in H1b; apply Nat.ltb_lt; apply H1b; exact Hf).
     cbn [andb]. unfold crossing_size_ok. cbn [fst snd].
     rewrite (list_sum_ones (fun ls => combo_weight fb (combine c ls))) by (intros ls _; apply Hcw; reflexivity).
-    rewrite H8. reflexivity. }
+    rewrite frag1_allowed_combos. rewrite H8. reflexivity. }
   rewrite HA. cbn [andb length Nat.eqb]. rewrite andb_true_r. exact H10.
 Qed.
 
@@ -126,24 +150,29 @@ Proof.
 Qed.
 
 Local Notation H2 := frag1_frag2.
-Local Notation en := (f0_enum fb [] []).
+Local Notation en := (f0_enum_plain fb).
+Local Notation cn1 := (f0_count fb (f0_C fb)).
+Local Notation lcn1 := (if f0_leftover fb =? 0 then 1%Z else f0_count fb (f0_leftover fb)).
 Local Notation S0 := (code_sem fb).
 
 Lemma f1_memos : memos_ok fb [] [].
 Proof. apply (memos_ok_unw fb H2 frag1_unw). Qed.
 
 Lemma f1_make_enumerator : make_enumerator fb = ROk en.
-Proof. apply (f0_make_enumerator_unw fb H2 frag1_unw). Qed.
+Proof. apply (f0_make_enumerator_plain fb H2 frag1_unw frag1_no_derived). Qed.
+
+Lemma f1_count_pos : (0 < cn1)%Z.
+Proof. apply (f0_count_pos_full fb H2). Qed.
 
 Lemma f1_enumerates : enumerates fb.
 Proof. apply (f2_enumerates_unw fb H2 frag1_unw). Qed.
 
 Lemma f1_keys_of_ok k : In k (keys_of fb) -> key_ok fb k.
-Proof. apply (f2_keys_of_ok fb H2 [] [] f1_memos f1_make_enumerator). Qed.
+Proof. apply (f2_keys_of_ok fb H2 [] [] cn1 lcn1 f1_memos f1_make_enumerator f1_count_pos). Qed.
 
 Lemma f1_decode_key k : key_ok fb k ->
   exists r, decode_key fb k = Some r /\ forall g, row_of_run r g = decoded_row fb k g.
-Proof. apply (f2_decode_key fb H2 [] [] f1_memos f1_make_enumerator). Qed.
+Proof. apply (f2_decode_key fb H2 [] [] cn1 lcn1 f1_memos f1_make_enumerator f1_count_pos). Qed.
 
 (** C04 on F1 *)
 Theorem f1_accept_sound k cand :
@@ -166,7 +195,7 @@ Theorem f1_keys_count : fl_errors_fail fb = false ->
   make_enumerator fb = ROk en /\ Z.of_nat (length (keys_of fb)) = possible_keys fb en.
 Proof.
   intros He. split; [apply f1_make_enumerator|].
-  apply (f2m_keys_count fb H2 [] [] f1_memos f1_make_enumerator He).
+  apply (f2m_keys_count fb H2 [] [] cn1 lcn1 f1_memos f1_make_enumerator f1_count_pos He).
 Qed.
 
 (** C05, completeness on F1 *)
@@ -205,7 +234,7 @@ Theorem f1_count_exact :
   Z.of_nat (length (map (cand_tseq fb) (keys_of fb))) = possible_keys fb en.
 Proof.
   intros He Hrf. split; [apply f1_make_enumerator|].
-  rewrite <- (map_ext _ _ frag1_cand_fseq). apply (f2m_count_exact fb H2 [] [] f1_memos f1_make_enumerator He Hrf).
+  rewrite <- (map_ext _ _ frag1_cand_fseq). apply (f2m_count_exact fb H2 [] [] cn1 lcn1 f1_memos f1_make_enumerator f1_count_pos He Hrf).
 Qed.
 
 End F1T.
